@@ -1662,7 +1662,14 @@ class QueryBuilder(Selectable, Term):  # type:ignore[misc]
             querystring = (self._with_sql(ctx) if self._with else "") + self._delete_sql(ctx)
 
         elif not self._select_into and self._insert_table:
-            if self._with:
+            # MySQL and Oracle have no WITH in front of INSERT: for INSERT .. SELECT the common table expressions stand
+            # immediately before the SELECT (INSERT INTO t (..) WITH c AS (..) SELECT ..)
+            with_before_select = bool(
+                self._with
+                and not self._values
+                and ctx.dialect in (Dialects.MYSQL, Dialects.ORACLE)
+            )
+            if self._with and not with_before_select:
                 querystring = self._with_sql(ctx)
             else:
                 querystring = ""
@@ -1682,7 +1689,8 @@ class QueryBuilder(Selectable, Term):  # type:ignore[misc]
                     querystring += self._on_conflict_action_sql(ctx)
                 return querystring
             else:
-                querystring += " " + self._select_sql(ctx)
+                querystring += " " + (self._with_sql(ctx) if with_before_select else "")
+                querystring += self._select_sql(ctx)
 
         else:
             if self._with:
